@@ -715,6 +715,10 @@ func (s *Server) netServe() error {
 						if msg.Command() == "quit" {
 							if msg.OutputType == RESP {
 								io.WriteString(client, "+OK\r\n")
+							} else {
+								// the acknowledgement in the form of the
+								// connection: a JSON document
+								s.handleInputCommand(client, msg)
 							}
 							close = true // close connection
 							break
@@ -1193,7 +1197,8 @@ func (s *Server) handleInputCommand(client *Client, msg *Message) error {
 
 	var write bool
 
-	if (!client.authd || cmd == "auth") && cmd != "output" && cmd != "healthz" {
+	if (!client.authd || cmd == "auth") && cmd != "output" && cmd != "healthz" &&
+		cmd != "quit" {
 		if s.config.requirePass() != "" {
 			password := ""
 			// This better be an AUTH command or the Message should contain an Auth
@@ -1271,7 +1276,7 @@ func (s *Server) handleInputCommand(client *Client, msg *Message) error {
 		// does not write to aof, but requires a write lock.
 		s.mu.Lock()
 		defer s.mu.Unlock()
-	case "output":
+	case "output", "quit":
 		// this is local connection operation. Locks not needed.
 	case "echo":
 	case "massinsert":
@@ -1491,6 +1496,8 @@ func (s *Server) command(msg *Message, client *Client) (
 		res, err = s.cmdFEXISTS(msg)
 	case "output":
 		res, err = s.cmdOUTPUT(msg)
+	case "quit":
+		res = OKMessage(msg, time.Now())
 	case "aof":
 		res, err = s.cmdAOF(msg, client)
 	case "aofmd5":
